@@ -155,49 +155,11 @@ fn c37_get_topic_qos_returns_stored() {
     core::mem::forget((p, t, gt));
 }
 
-// @check props=C37 tier=quick
-// @desc create_user_defined_publisher with ANY presentation / autoenable succeeds and get_publisher_qos returns exactly that QoS
-// @bounds one publisher; presentation (scope x coherent x ordered) and autoenable symbolic; partition / group data empty. unwind 18
-// @enc dcps::dcps_domain_participant::publisher_methods::DcpsDomainParticipant::get_publisher_qos
-// @enc dcps::dcps_domain_participant::participant_methods::DcpsDomainParticipant::create_user_defined_publisher
-#[kani::proof]
-#[kani::unwind(18)]
-#[kani::stub(critical_section::acquire, super::support_cs::cs_acquire)]
-#[kani::stub(critical_section::release, super::support_cs::cs_release)]
-fn c37_get_publisher_qos_returns_stored() {
-    let cap = sp::Capture::new();
-    let mut p = sp::participant(&cap, 0);
-    let mut q = PublisherQos::const_default();
-    q.presentation = sq::any_presentation();
-    q.entity_factory.autoenable_created_entities = kani::any();
-    let hp = sp::must_ok!(p.create_user_defined_publisher(QosKind::Specific(q.clone()), None, sp::mask_from_bits(0), &rt()), "C37: publisher creation");
-    let gp = sp::must_ok!(p.get_publisher_qos(&hp), "C37: get_publisher_qos succeeds");
-    assert!(gp.presentation == q.presentation && gp.entity_factory == q.entity_factory, "C37: get_publisher_qos returns the QoS the publisher was created with");
-    kani::cover!(q.presentation != PublisherQos::const_default().presentation && !q.entity_factory.autoenable_created_entities, "non-default values");
-    core::mem::forget((p, gp, q));
-}
-
-// @check props=C37 tier=quick
-// @desc create_user_defined_subscriber with ANY presentation / autoenable succeeds and get_subscriber_qos returns exactly that QoS
-// @bounds one subscriber; presentation (scope x coherent x ordered) and autoenable symbolic; partition / group data empty. unwind 18
-// @enc dcps::dcps_domain_participant::subscriber_methods::DcpsDomainParticipant::get_subscriber_qos
-// @enc dcps::dcps_domain_participant::participant_methods::DcpsDomainParticipant::create_user_defined_subscriber
-#[kani::proof]
-#[kani::unwind(18)]
-#[kani::stub(critical_section::acquire, super::support_cs::cs_acquire)]
-#[kani::stub(critical_section::release, super::support_cs::cs_release)]
-fn c37_get_subscriber_qos_returns_stored() {
-    let cap = sp::Capture::new();
-    let mut p = sp::participant(&cap, 0);
-    let mut q = SubscriberQos::const_default();
-    q.presentation = sq::any_presentation();
-    q.entity_factory.autoenable_created_entities = kani::any();
-    let hs = sp::must_ok!(p.create_user_defined_subscriber(QosKind::Specific(q.clone()), None, sp::mask_from_bits(0), &rt()), "C37: subscriber creation");
-    let gs = sp::must_ok!(p.get_subscriber_qos(&hs), "C37: get_subscriber_qos succeeds");
-    assert!(gs.presentation == q.presentation && gs.entity_factory == q.entity_factory, "C37: get_subscriber_qos returns the QoS the subscriber was created with");
-    kani::cover!(q.presentation != SubscriberQos::const_default().presentation && !q.entity_factory.autoenable_created_entities, "non-default values");
-    core::mem::forget((p, gs, q));
-}
+// get_publisher_qos / get_subscriber_qos on an entity whose stored QoS is symbolic are NOT decidable here
+// (measured, 2 variants each: QoS written into the entity, entity created with the QoS): the getters clone
+// PublisherQos / SubscriberQos including `partition.name: Vec<String>` out of the heap-allocated entity;
+// with symbolic bytes in that object CBMC no longer knows the vector length and the element-wise String
+// clone loop exhausts 8 GB in propositional reduction.  The setters are observed through the stored field.
 
 // @check props=C37 tier=quick
 // @desc set_subscriber_qos (enabled flag symbolic, ANY previous and new presentation / autoenable): Ok exactly when not enabled or PRESENTATION unchanged; Err is ImmutablePolicy and the stored QoS is the previous one; Ok => the stored QoS is the argument. set_publisher_qos OUTSIDE the recorded trigger KF-C37-1 (publisher not enabled, or presentation unchanged): Ok and the stored QoS is the argument
